@@ -43,10 +43,14 @@ var extraModelTerms map[string]*Term
 
 var vcMu sync.Mutex
 
+// curAxioms: definitional axioms of recursive specification functions for the function being discharged
+var curAxioms []*Term
+
 func buildVC(o *Obligation, assumptions []*Term, modelVars []*Term) string {
 	vcMu.Lock()
 	defer vcMu.Unlock()
 	var asserts []*Term
+	asserts = append(asserts, curAxioms...)
 	asserts = append(asserts, assumptions[:o.NAssume]...)
 	asserts = append(asserts, o.PC)
 	if !o.Vacuity {
@@ -214,6 +218,7 @@ const maxVCBytes = 4 << 20
 
 // dischargeAll solves all pending obligations of a function result in parallel.
 func dischargeAll(res *FuncResult, dir string, timeoutS, seed, par int, modelVars []*Term) {
+	curAxioms = res.Axioms
 	var wg sync.WaitGroup
 	sem := make(chan struct{}, par)
 	for idx, o := range res.Obls {
